@@ -126,27 +126,52 @@ func ruleMapDelegates(c *Ctx, r *R) {
 	sort.Strings(names)
 	for _, n := range names {
 		fn := meths[n]
+		if !token.IsExported(n) {
+			continue // a helper of the wrappers (m.storeWith(op, key, value)), seen from the wrappers that use it
+		}
 		key := "xsync.Map." + n
 		var calls []*ssa.Call
+		var callChain []*ssa.Call
 		var site ssa.Instruction
+		// a shared helper that is handed the sync.Map method as a method expression: its func-typed parameter stands for that
+		// method while this wrapper is analysed
+		unbindOp := bindFuncParams(fn)
 		for _, d := range deepInstrs(fn, 2) {
 			if call, ok := d.in.(*ssa.Call); ok {
-				if cal := call.Call.StaticCallee(); cal != nil && cal.Signature.Recv() != nil && isNamedType(cal.Signature.Recv().Type(), "sync", "Map") {
+				if strings.HasSuffix(call.Parent().Name(), "$thunk") {
+					continue // the body of a method expression: the same delegation, seen at the call of the parameter it is bound to
+				}
+				if cal := staticCallee(&call.Call); cal != nil && cal.Signature.Recv() != nil && isNamedType(cal.Signature.Recv().Type(), "sync", "Map") && cal.Pkg != nil && cal.Pkg.Pkg.Path() == "sync" {
 					calls = append(calls, call)
+					callChain = d.calls
 					site = d.site
 				}
 			}
 		}
 		if len(calls) != 1 {
+			unbindOp()
 			r.violated(key, fn.Pos(), "must delegate to exactly one sync.Map call, found "+itoa(len(calls)))
 			continue
 		}
 		call := calls[0]
-		cal := call.Call.StaticCallee()
+		cal := staticCallee(&call.Call)
+		unbindOp()
 		good := fname(cal) == n
 		why := "calls sync.Map." + fname(cal)
 		// arguments: the method's own parameters (after the receiver), in order, through MakeInterface
-		args := call.Call.Args[1:]
+		args := append([]ssa.Value{}, call.Call.Args[1:]...)
+		for i := range args { // seen from the wrapper when the call sits in a helper
+			v := args[i]
+			if mi, ok := v.(*ssa.MakeInterface); ok {
+				v = mi.X
+			}
+			if ct, ok := v.(*ssa.ChangeType); ok {
+				v = ct.X
+			}
+			if len(callChain) > 0 {
+				args[i] = argOf(v, callChain)
+			}
+		}
 		if n == "Range" {
 			good = good && len(args) == 1
 		} else {
